@@ -500,6 +500,65 @@ def differential(tier, seed, cfgs=None, case_fn=None, label='core'):
         return total
 
 
+def monitor_only(cfgs, case_fn, label):
+    """run cases through the harness only (no model): monitor messages and crashes of the real code"""
+    os.makedirs(os.path.join(CACHE, 'core'), exist_ok=True)
+    key = sha(repo_fingerprint(), verif_fingerprint(), label, *[c.key() for c in cfgs])[:24]
+    path = os.path.join(CACHE, 'core', 'mon_' + key + '.json')
+    with Lock('mon_' + label):
+        if os.path.exists(path):
+            return json.load(open(path))
+        exes, errs = build_harnesses(cfgs)
+        total = dict(lines=0, cases=0, w={}, wcount={}, crashes=[], build_errors=errs, samples=[], distinct=0)
+        for c in cfgs:
+            if c.key() not in exes:
+                continue
+            for chunk in chunked(case_fn(c)):
+                lines, owner = [], []
+                for ci, cs in enumerate(chunk):
+                    lines.append('reset'); owner.append((ci, -1))
+                    for li, l in enumerate(cs['lines']):
+                        lines.append(l); owner.append((ci, li))
+                start, guard = 0, 0
+                seen = set()
+                while start < len(lines) and guard < 200:
+                    guard += 1
+                    o, wm, status = run_harness(exes[c.key()], lines[start:])
+                    for i, wl in enumerate(wm):
+                        ci, li = owner[start + i]
+                        if li >= 0 and chunk[ci].get('test') == li and i < len(o):
+                            f = fields(o[i])
+                            if f:
+                                seen.add((chunk[ci]['cls'], chunk[ci]['state'], f[5]))
+                                if len(total['samples']) < 2 and f[5] not in ('-',):
+                                    total['samples'].append(dict(config=c.key(), case=chunk[ci]['lines'][:li + 1], impl=o[i]))
+                        for w in wl:
+                            prop = w.split()[1]
+                            total['wcount'][prop] = total['wcount'].get(prop, 0) + 1
+                            lst = total['w'].setdefault(prop, [])
+                            if len(lst) < 10:
+                                lst.append(dict(config=c.key(), cls=chunk[ci]['cls'], state=chunk[ci]['state'], case=chunk[ci]['lines'][:li + 1], line=li,
+                                                op=lines[start + i], msg=w[3:], impl=o[i] if i < len(o) else ''))
+                    if status is None:
+                        break
+                    at = start + status['at_line']
+                    ci, li = owner[min(at, len(owner) - 1)]
+                    if len(total['crashes']) < 20:
+                        total['crashes'].append(dict(config=c.key(), kind=status['kind'], detail=status['detail'], case=chunk[ci]['lines'][:max(li, 0) + 1], line=li,
+                                                     cls=chunk[ci]['cls'], state=chunk[ci]['state']))
+                    nxt = at + 1
+                    while nxt < len(lines) and lines[nxt] != 'reset':
+                        nxt += 1
+                    start = nxt
+                total['lines'] += len(lines)
+                total['cases'] += len(chunk)
+                total['distinct'] += len(seen)
+        tmp = path + '.tmp%d' % os.getpid()
+        json.dump(total, open(tmp, 'w'))
+        os.replace(tmp, path)
+        return total
+
+
 # --------------------------------------------------------------------------------------------------
 # findings, replay, evidence
 # --------------------------------------------------------------------------------------------------
